@@ -96,7 +96,7 @@ claim("C18", "other",
       "DESIGN.md 5.C18")
 
 claim("C10", "other",
-      "Abstract interpretation of the code as written (not of its canonical form) in a finiteness/sign domain with exact constants, the f64 range model (underflow to 0, overflow to inf) and an interval for the power exponent: at every enumerated special point (powi at 0 for n = 0,1,2 and integers >= 3; powf at 0 for n = 0,1,2, integers >= 3 and non-integers above the order of the type; atan2 on either axis away from the origin; sph_j0/1/2, exp_m1, ln_1p at 0, at the immediate neighbours +-2^-1074 and at +-2^-1022; bessel_j0/1/2 at 0) with arbitrary finite derivative parts, every part of the result is finite on every path for all 8 types and for the plain-float instances (no 0*inf, 0/0, inf-inf). Value clause: at these points the arm taken by bessel_j*/sph_j* is the Maclaurin polynomial of the function (exact coefficient comparison, adequate truncation) and both arms of atan2 carry the derivative parts of the two-argument arctangent (rule sets of C14/C15/C01 reused). Every operator and iterator form (Sum/Product) is the truncated-algebra operation on every path, so no shortcut on a zero real part drops derivative parts. Known findings: powf at 0 with a non-integer exponent in (order, 3).",
+      "Abstract interpretation of the code as written (not of its canonical form) in a finiteness/sign domain with exact constants, the f64 range model (underflow to 0, overflow to inf) and an interval for the power exponent: at every enumerated special point (powi at 0 for n = 0,1,2 and integers >= 3; powf at 0 for n = 0,1,2, integers >= 3 and non-integers above the order of the type; atan2 on either axis away from the origin; sph_j0/1/2, exp_m1, ln_1p at 0, at the immediate neighbours +-2^-1074 and at +-2^-1022; bessel_j0/1/2 at 0) with arbitrary finite derivative parts, every part of the result is finite on every path for all 8 types and for the plain-float instances (no 0*inf, 0/0, inf-inf). Value clause: at these points the arm taken by bessel_j*/sph_j* is the Maclaurin polynomial of the function (exact coefficient comparison, adequate truncation) and both arms of atan2 carry the derivative parts of the two-argument arctangent (rule sets of C14/C15/C01 reused); bessel_j0/1/2 interpreted on a full dual operand at a zero real part (both signs of zero) and at +-1e-6 give in every part the formal derivative of that polynomial composed with the operand's parts (all types, all presence patterns), and the sign items they call are +-self away from zero. Every operator and iterator form (Sum/Product) is the truncated-algebra operation on every path, so no shortcut on a zero real part drops derivative parts. Known findings: powf at 0 with a non-integer exponent in (order, 3).",
       "trusted: rustc type checker and name resolution, the exporter, the interpreter, the transfer functions of ndvlib/domb.py; assumes finite*finite and finite+finite stay finite; Horner-at-zero summary for polevl/p1evl",
       "abstract interpretation with a finiteness/sign lattice (+ exponent intervals) over typed HIR",
       "DESIGN.md 5.C10")
@@ -106,7 +106,7 @@ claim("C12", "other",
       "tree-dominance and pairing rules on structured typed HIR",
       "DESIGN.md 5.C12")
 claim("C14", "other",
-      "NARROW claim: (1) parity — for each region (tiny, |x|<=5, |x|>5) the canonical real form computed for a negative argument, mirrored, equals +-the form for the positive argument (J0, J2 even, J1 odd; all guards decided by the real part); (2) interface purity — bessel.rs touches its operand only through DualNum/operator items, and those operations (+ - * / and the chain rule of all 8 types) are the truncated-algebra operations (rule sets of C02/C01 reused), hence derivative parts are those of the computed real function; (3) small-argument series — each polynomial arm equals the Maclaurin polynomial of J_n up to its own degree and is adequate for derivative orders 0..4 at the arm's threshold (exact rational bound vs 2^-50); (4) switch points agree between the three functions; the rational arm's Maclaurin expansion (tables evaluated exactly in a truncated-power-series domain) agrees with that of J_n to the accuracy of the tables; the asymptotic arm has the leading behaviour sqrt(2/(pi x)) cos(x - (2n+1)pi/4). (5) the extracted approximants (rational arm for |x| <= 5, asymptotic arm beyond, coefficient tables read from the source) agree with J_n from its exact Maclaurin series at 18 grid points on both arms and both signs to 1e-16 in 60-digit arithmetic (the pinned tables reach 6e-18); every operator form including the dual-with-float forms is the truncated-algebra operation. NOT decided: accuracy of the approximants BETWEEN the grid points, continuity at |x|=5.",
+      "NARROW claim: (1) parity — for each region (tiny, |x|<=5, |x|>5) the canonical real form computed for a negative argument, mirrored, equals +-the form for the positive argument (J0, J2 even, J1 odd; all guards decided by the real part); (2) interface purity — bessel.rs touches its operand only through DualNum/operator items, and those operations (+ - * / and the chain rule of all 8 types) are the truncated-algebra operations (rule sets of C02/C01 reused), hence derivative parts are those of the computed real function; (2') the same decided on the bodies: interpreted on a full dual operand (all 8 types, every presence pattern) along the path of each region 0, +-1e-6, +-1 — at a zero real part along the paths of both signs of zero — every part of bessel_j0/1/2 is the formal derivative of the real function the scalar interpretation of that path computes, composed with the operand's parts, so no reflection or shortcut drops or re-signs derivative parts; the Signed and DualNum items bessel.rs calls (abs, signum, recip, sqrt, sin_cos: resolved callees) satisfy their own lifting rules (the asymptotic arm |x| > 5 is covered through these, not lifted in dual mode); (3) small-argument series — each polynomial arm equals the Maclaurin polynomial of J_n up to its own degree and is adequate for derivative orders 0..4 at the arm's threshold (exact rational bound vs 2^-50); (4) switch points agree between the three functions; the rational arm's Maclaurin expansion (tables evaluated exactly in a truncated-power-series domain) agrees with that of J_n to the accuracy of the tables; the asymptotic arm has the leading behaviour sqrt(2/(pi x)) cos(x - (2n+1)pi/4). (5) the extracted approximants (rational arm for |x| <= 5, asymptotic arm beyond, coefficient tables read from the source) agree with J_n from its exact Maclaurin series at 18 grid points on both arms and both signs to 1e-16 in 60-digit arithmetic (the pinned tables reach 6e-18); every operator form including the dual-with-float forms is the truncated-algebra operation. NOT decided: accuracy of the approximants BETWEEN the grid points, continuity at |x|=5.",
       "trusted: rustc type checker and name resolution, the exporter, ndvlib/poly.py, Maclaurin tables computed in ndvlib/series.py",
       "real-function abstract interpretation per region + parity check by substitution + exact series bounds",
       "DESIGN.md 5.C14")
